@@ -123,6 +123,7 @@ type script struct {
 	IgnoreSigterm bool `json:"ignore_sigterm"`
 	StartDelayMS int      `json:"start_delay_ms"`
 	StopDelayMS  int      `json:"stop_delay_ms"`
+	StopDelayMSFor map[string]int `json:"stop_delay_ms_for"`
 }
 
 func loadScript() *script {
@@ -425,8 +426,12 @@ func runServer(sc *script) int {
 	}
 	stop := func(why string) int {
 		logEv("server_stop_signal", map[string]any{"key": key})
-		if sc.StopDelayMS > 0 {
-			time.Sleep(time.Duration(sc.StopDelayMS) * time.Millisecond)
+		delay := sc.StopDelayMS
+		if d, ok := sc.StopDelayMSFor[key]; ok {
+			delay = d
+		}
+		if delay > 0 {
+			time.Sleep(time.Duration(delay) * time.Millisecond)
 		}
 		logEv("server_exit", map[string]any{"key": key, "why": why})
 		return 0
